@@ -4,7 +4,7 @@
    (= the known findings).  SO(3) / compound behaviour is covered by the bit-exact correspondence and the
    enforce -> satisfies / idempotence oracle on the lattice. *)
 From Coq Require Import ZArith NArith List Bool Floats.
-From OX Require Import Numerics.FloatBits Gen.Consts Spaces.SpacesF Spaces.SpacesFProofs.
+From OX Require Import Numerics.FloatBits Gen.Consts Spaces.SpacesF Spaces.SpacesFProofs Spaces.CompoundN.
 Import ListNotations.
 Open Scope float_scope.
 
@@ -54,6 +54,19 @@ Theorem C11_refuted_infinite_width :
   rand_range 12345%N (fbits 18441750990357478262) (fbits 9218378953502702454) = Panic.   (* (-1.7e308, 1.7e308) *)
 Proof. vm_compute. reflexivity. Qed.
 
+(* compound spaces, any width and nesting: if every component space obeys "what enforce returns, satisfies
+   accepts" on a class P of states closed under taking components, so does the compound (Spaces/CompoundN.v);
+   instance: every compound tree whose leaves are well-formed boxes, on NaN-free states *)
+Theorem C11_compound_enforce_then_satisfies : forall acosF sinF (P : st -> Prop),
+  (forall xs, P (VC xs) -> Forall P xs) ->
+  forall subs, Forall (fun sw => enf_sat_law acosF sinF P (fst sw)) subs -> enf_sat_law acosF sinF P (CS subs).
+Proof. exact compound_enforce_then_satisfies. Qed.
+Theorem C11_box_tree_enforce_then_satisfies : forall acosF sinF s x r,
+  rv_tree s -> st_no_nan x -> enforce acosF sinF s x = Ok r -> satisfies acosF s r = Ok true.
+Proof. intros acosF sinF s x r Hs Hx. exact (rv_tree_law acosF sinF s Hs x r Hx). Qed.
+
+Print Assumptions C11_compound_enforce_then_satisfies.
+Print Assumptions C11_box_tree_enforce_then_satisfies.
 Print Assumptions C11_clamp_in_range.
 Print Assumptions C11_clamp_idempotent.
 Print Assumptions C11_clamp_fixes_in_range.
